@@ -557,7 +557,19 @@ func execute(c Case) (o outcome) {
 		before := f.sc.VerifPendingHandlers()
 		hb := starve.Begin()
 		tag := fmt.Sprintf("c19:op%d", i)
+		// control: a plain runtime timer of the harness for the same duration as
+		// the one the call depends on, started at the same moment; its lateness
+		// is the lateness this process imposes on any timer right now
+		expect := T + leniency
+		if op.Kind == "request" && ctxEnd >= 0 && ctxEnd < expect {
+			expect = ctxEnd
+		}
+		ctrl := make(chan time.Duration, 1)
 		r.t0 = time.Now()
+		go func(t0 time.Time) {
+			time.Sleep(expect)
+			ctrl <- time.Since(t0) - expect
+		}(r.t0)
 		var got string
 		done := make(chan struct{})
 		go func() {
@@ -601,6 +613,20 @@ func execute(c Case) (o outcome) {
 		if 10*worst > sl {
 			sl = 10 * worst
 			cls["note:slack-widened-process-starved"] = true
+		}
+		if r.dur > expect {
+			select {
+			case late := <-ctrl:
+				if slack+2*late > sl {
+					sl = slack + 2*late
+					if late > 50*time.Millisecond {
+						cls["note:slack-widened-control-timer-late"] = true
+					}
+				}
+			case <-time.After(10 * time.Second):
+				sl += 10 * time.Second
+				cls["note:slack-widened-control-timer-late"] = true
+			}
 		}
 		bound := T + leniency + sl
 		if op.Kind == "request" && ctxEnd >= 0 && ctxEnd+sl < bound {
@@ -682,6 +708,9 @@ func classify(f *fixture, r *opRun, cls map[string]bool, o *outcome) {
 	cls["op:"+op.Kind] = true
 	cls["delay:"+op.Delay] = true
 	cls["ctx:"+op.Ctx] = true
+	if op.Kind == "request" && op.TMs >= 3000 {
+		cls["ctx:only-the-context-can-end-the-call-within-3s"] = true
+	}
 	if op.StallPop+op.StallLock+op.StallTimeout > 0 {
 		cls["stalled-at-scheduling-point"] = true
 	}
